@@ -12,6 +12,7 @@ import (
 // the real HTML5 tree builder runs.
 type HTMLScript struct {
 	Doc  *html.Node
+	Text string // if set: the literal source text read natively (tag soup that the renderer cannot express)
 	text []byte
 	off  int
 	done bool
@@ -50,7 +51,11 @@ func renderNode(sb *strings.Builder, n *html.Node) {
 func (s *HTMLScript) Read(p []byte) (int, error) {
 	if !s.done {
 		var sb strings.Builder
-		renderNode(&sb, s.Doc)
+		if s.Text != "" {
+			sb.WriteString(s.Text)
+		} else {
+			renderNode(&sb, s.Doc)
+		}
 		s.text = []byte(sb.String())
 		s.done = true
 	}
